@@ -103,6 +103,7 @@
 #![allow(clippy::from_str_radix_10)]
 #![allow(clippy::option_as_ref_deref)]
 #![allow(clippy::needless_lifetimes)]
+#![allow(unexpected_cfgs)]
 
 pub mod ast;
 pub mod commands;
